@@ -442,7 +442,13 @@ func (r resolverQuery) parsePackageJSON(inputPath string) *packageJSON {
 
 				// Wildcard patterns require more expensive matching
 				if hadWildcard {
-					packageJSON.sideEffectsRegexps = append(packageJSON.sideEffectsRegexps, regexp.MustCompile(re))
+					compiled, err := regexp.Compile(re)
+					if err != nil {
+						// This only fails for text that isn't valid UTF-8. Keep the side
+						// effects of every file instead of crashing.
+						compiled = regexp.MustCompile("")
+					}
+					packageJSON.sideEffectsRegexps = append(packageJSON.sideEffectsRegexps, compiled)
 					continue
 				}
 
